@@ -48,9 +48,12 @@ def build_tc(r, n, spec=None):
         else:
             uses = r.sample(bound, min(len(bound), r.choice([0, 0, 1, 1, 2]))) if bound else []
             args = ", ".join(uses)
-            form = r.choice(["assign"] * 6 + ["expr", "ann", "attr", "multi"])
+            form = r.choice(["assign"] * 6 + ["expr", "ann", "attr", "multi", "lit", "lit"])
             v = f"var_{len(bound)}"
-            if form == "expr":
+            if form == "lit":   # primitive statement; unused ones are reduced to a bare literal expression
+                uses = []
+                code, bv = f"{v} = {r.choice(['5', '1.5', repr('unused'), repr(b'x'), '-3', 'True', '0'])}", v
+            elif form == "expr":
                 code, bv = f"mod_0.foo({args})", None
             elif form == "ann":
                 code, bv = f"{v}: int = mod_0.foo({args})", v
@@ -64,7 +67,7 @@ def build_tc(r, n, spec=None):
             asserts_spec = []
             for _ in range(r.choice([0, 0, 1, 1, 2, 3])):
                 k = r.random()
-                if k < 0.5 and bv is not None:
+                if k < (0.15 if form == "lit" else 0.5) and bv is not None:
                     src = bv
                 elif k < 0.75 and (bound or bv):
                     src = r.choice(bound + ([bv] if bv else []))
@@ -316,7 +319,10 @@ def build_post_test(r):
     for _ in range(n):
         uses = r.sample(bound, min(len(bound), r.choice([0, 0, 1, 1, 2]))) if bound else []
         call = f"mod_0.g{r.randrange(nf)}({', '.join(uses)})"
-        bv = None if r.random() < 0.12 else f"var_{len(bound)}"
+        if r.random() < 0.15:   # primitive statement (reduced to a bare literal when unused)
+            uses = []
+            call = r.choice(["5", "1.5", repr("unused"), repr(b"x"), "0"])
+        bv = None if (r.random() < 0.12 and "mod_0" in call) else f"var_{len(bound)}"
         code = call if bv is None else f"{bv} = {call}"
         srcs = []
         for _ in range(r.choice([0, 0, 1, 1, 2])):
@@ -341,7 +347,7 @@ def build_post_test(r):
             bound.append(bv)
         tc._statements.append(Statement(node=cst.parse_statement(code + "\n"), bound_variable=bv,
                                         bound_type=r.choice(TYPES) if bv else None, assertions=asserts))
-        spec.append({"code": code, "call": call, "bv": bv, "uses": uses, "srcs": srcs,
+        spec.append({"code": code, "call": call, "bv": bv, "uses": uses, "srcs": srcs, "n_exc": len(asserts) - len(srcs),
                      "rendered": [rendered_text(a) for a in asserts if rendered_text(a) is not None]})
     tc._var_counter = len(bound)
     tc._rebuild_registry()
@@ -475,7 +481,24 @@ def post_cases(r, n_cases, scratch: Path, only_seeds=None):
             suite.accept(pp.CombinedMinimizationVisitor(covs))
         else:
             vis = pp.ForwardIterativeMinimizationVisitor(covs) if strategy == "CASE-F" else pp.BackwardIterativeMinimizationVisitor(covs)
-            suite.accept(pp.TestCasePostProcessor([pp.UnusedStatementsTestCaseVisitor(), vis]))
+            # generator._minimize applies [unused-variable visitor, minimiser] per test case; the visitors work on one test
+            # case at a time, so two passes give the same result and let the first stage be judged on its own: it may only
+            # strip bindings, never remove a statement or an assertion
+            suite.accept(pp.TestCasePostProcessor([pp.UnusedStatementsTestCaseVisitor()]))
+            for c_ in suite.test_case_chromosomes:
+                tc_, spec_ = specs[id(c_.test_case)]
+                if tc_.size() != len(spec_):
+                    gone = [sp["code"] for sp in spec_ if not any(L.node_info(st.node)[2].strip() in (sp["code"], sp["call"])
+                                                                  for st in tc_._statements)]
+                    fails.append({"signature": f"post:visitor-removed-statement:{strategy}",
+                                  "message": f"UnusedStatementsTestCaseVisitor removed statement(s) {gone} (test case had "
+                                             f"{len(spec_)} statements, now {tc_.size()}) [post_seed {seed}]",
+                                  "replay": {"post_seed": seed}})
+                elif [len(st.assertions) for st in tc_._statements] != [len(sp["srcs"]) + sp.get("n_exc", 0) for sp in spec_]:
+                    fails.append({"signature": f"post:visitor-dropped-assertion:{strategy}",
+                                  "message": f"UnusedStatementsTestCaseVisitor changed the assertions of a statement [post_seed {seed}]",
+                                  "replay": {"post_seed": seed}})
+            suite.accept(pp.TestCasePostProcessor([vis]))
         suite.accept(pp.EmptyTestCaseRemover())
         after = sum(c.test_case.size() for c in suite.test_case_chromosomes)
         stats["post:" + strategy] = stats.get("post:" + strategy, 0) + 1
